@@ -46,6 +46,10 @@ var (
 	c13zmInts  = []int64{0, 80, 8080, 65535, 65536, -1, 1 << 40, math.MaxInt64, math.MinInt64, 7}
 	c13zmFlts  = []float64{0, 1.5, 8080, 1e21, 1e-7, math.NaN(), math.Inf(1), math.Copysign(0, -1), 65536, 1e6}
 	c13zmSafe  = []string{"", "a", "svc", "x y", "A.b-c_d:e/f", "0"}
+	// string-slice elements: everything encoding/json escapes (quote, backslash, control characters, <, >, &, U+2028/9,
+	// invalid UTF-8) next to what it copies (DEL, multi-byte runes, an encoded U+FFFD)
+	c13zmEsc = []string{"", "a", "x y", "a\"b", "back\\slash", "\x00\x1f", "\b\f\n\r\t", "<&>", "\u2028x\u2029", "\xff",
+		"\xe2\x80", "\xc0\x80", "é日", "\x7f", "\xef\xbf\xbd", "\xf0\x9f\x98\x80", "\xed\xa0\x80", "\x01\x0b\x0e", "a\xffb\"", "'/"}
 	c13zmNames = []string{"", "ev", "exception", "a: b"}
 )
 
@@ -108,7 +112,14 @@ func c13zmValue(r *vRand, key string) attribute.KeyValue {
 		n := r.Intn(4)
 		l := make([]string, n)
 		for i := range l {
-			l[i] = vPick(r, c13zmSafe)
+			switch r.Intn(4) {
+			case 0:
+				l[i] = vStr(r, 3) // byte strings around the UTF-8 branch points (may be invalid)
+			case 1:
+				l[i] = vPick(r, c13zmSafe)
+			default:
+				l[i] = vPick(r, c13zmEsc)
+			}
 		}
 		return k.StringSlice(l)
 	default:
